@@ -28,7 +28,7 @@ ASSUMPTIONS = [
     "request_timeout_ms > rebalance_timeout_ms as with the library defaults (a parked JoinGroup must not time out client-side)",
     "histories in which the sticky assignor does not terminate (C14 known finding) are skipped and counted",
 ]
-REQUIRED_COUNTERS = ["histories_judged", "generations_checked", "assignments_checked", "assigned_callbacks_checked",
+REQUIRED_COUNTERS = ["histories_judged", "histories_read_committed_with_transactions", "generations_checked", "assignments_checked", "assigned_callbacks_checked",
                      "deliveries_checked", "periods_checked", "period_starts_checked", "barriers_checked",
                      "revocations_with_partitions", "rebalances_with_deliveries_in_flight", "subscription_changes",
                      "kills_executed", "histories_pattern_subscription"]
